@@ -529,7 +529,12 @@ func (s *state) visitIf(node *ast.IfNode) {
 }
 
 func (s *state) visitFor(node *ast.ForNode) {
-	if rangeNode, ok := node.List.(*ast.FunctionNode); ok && rangeNode.Name == "range" {
+	// A loop over range(n) without {ifempty} becomes a plain javascript for loop.
+	// (With a start or a step the loop variable is not the position in the loop,
+	// which index(), isFirst() and isLast() need; those loops, and loops with
+	// {ifempty}, iterate over the list that range() returns.)
+	if rangeNode, ok := node.List.(*ast.FunctionNode); ok && rangeNode.Name == "range" &&
+		len(rangeNode.Args) == 1 && node.IfEmpty == nil {
 		s.visitForRange(node)
 	} else {
 		s.visitForeach(node)
